@@ -147,3 +147,95 @@ theorem taintLoop_spec (o : Oracle) (nowSec : Int) (effect : String) :
         exact i5 (by simpa using hlt)
 
 end Esc
+
+namespace Esc
+open Spec
+
+/-! ### the untaint loop, completely -/
+
+theorem deleteTaint_cases (o : Oracle) (k : Nat) (c : Node) :
+    (∃ b, (deleteTaint o k c).j = [⟨.getNode c.name, b⟩]) ∨
+    (∃ b u b2, u.name = c.name ∧ hasTaint escKey u = true ∧
+      (deleteTaint o k c).j = [⟨.getNode c.name, b⟩, ⟨.updateNode { u with taints := swapRemoveFirst (fun t => t.key == escKey) u.taints }, b2⟩] ∧
+      (deleteTaint o k c).val = b2) := by
+  obtain ⟨b, hb⟩ := k8sGet_j o k c.name
+  unfold deleteTaint; dsimp only
+  split
+  · left; exact ⟨b, hb⟩
+  · rename_i u hu
+    split
+    · rename_i hhas
+      right
+      obtain ⟨b2, hj, hv⟩ := doPlain_j o (k8sGet o k c.name).k (.updateNode { u with taints := swapRemoveFirst (fun t => t.key == escKey) u.taints })
+      exact ⟨b, u, b2, k8sGet_name o k c.name u hu, hhas, by simp [hb, hj], hv⟩
+    · left; exact ⟨b, hb⟩
+
+theorem deleteTaint_names (o : Oracle) (k : Nat) (c : Node) :
+    getNames (deleteTaint o k c).j = [c.name] ∧
+    (okUpdateNames (deleteTaint o k c).j = [] ∨ (okUpdateNames (deleteTaint o k c).j = [c.name] ∧ (deleteTaint o k c).val = true)) := by
+  rcases deleteTaint_cases o k c with ⟨b, hj⟩ | ⟨b, u, b2, hn, _, hj, hv⟩
+  · simp [hj, getNames, okUpdateNames]
+  · rw [hj, hv]
+    refine ⟨by simp [getNames], ?_⟩
+    cases b2
+    · left; simp [okUpdateNames]
+    · right; simp [okUpdateNames, hn]
+
+/-- The non-dry untaint loop over candidates that all carry the escalator taint in the view: it
+    attempts a prefix of the ordered candidates, in order; it stops early only once `need` successes
+    were reached; accepted UPDATEs are for attempted candidates. -/
+theorem untaintLoop_spec (o : Oracle) :
+    ∀ (cs : List Node) (k need : Nat) (tr : List String), (∀ c ∈ cs, hasTaint escKey c = true) →
+    ∃ m, m ≤ cs.length ∧
+      getNames (untaintLoop o false k cs need tr).j = (cs.take m).map (·.name) ∧
+      (∀ x ∈ okUpdateNames (untaintLoop o false k cs need tr).j, x ∈ (cs.take m).map (·.name)) ∧
+      (untaintLoop o false k cs need tr).val.count ≤ need ∧
+      (untaintLoop o false k cs need tr).val.count ≤ m ∧
+      (okUpdateNames (untaintLoop o false k cs need tr).j).length ≤ (untaintLoop o false k cs need tr).val.count ∧
+      (m < cs.length → (untaintLoop o false k cs need tr).val.count = need) := by
+  intro cs
+  induction cs with
+  | nil => intro k need tr _; exact ⟨0, by simp [untaintLoop, getNames, okUpdateNames]⟩
+  | cons c cs ih =>
+    intro k need tr hall
+    have hc := hall c List.mem_cons_self
+    have hrest : ∀ c' ∈ cs, hasTaint escKey c' = true := fun c' h => hall c' (List.mem_cons_of_mem _ h)
+    unfold untaintLoop; dsimp only
+    split
+    · rename_i h0
+      exact ⟨0, by simp [getNames, okUpdateNames, h0]⟩
+    · rename_i hne
+      simp only [Bool.false_eq_true, if_false, hc, if_true]
+      obtain ⟨hg, hu⟩ := deleteTaint_names o k c
+      have hmem : ∀ (m : Nat) (rest : Journal), (∀ x ∈ okUpdateNames rest, x ∈ (cs.take m).map (·.name)) →
+          ∀ x ∈ okUpdateNames ((deleteTaint o k c).j ++ rest), x ∈ ((c :: cs).take (m + 1)).map (·.name) := by
+        intro m rest i2 x hx
+        rw [okUpdateNames_append] at hx
+        rcases List.mem_append.mp hx with hx | hx
+        · rcases hu with h | ⟨h, _⟩
+          · rw [h] at hx; cases hx
+          · rw [h] at hx; simp at hx; simp [hx]
+        · simp only [List.take_succ_cons, List.map_cons, List.mem_cons]
+          right; exact i2 x hx
+      cases hv : (deleteTaint o k c).val with
+      | true =>
+        simp only [if_true]
+        obtain ⟨m, hm, i1, i2, i3, i4, i6, i5⟩ := ih (deleteTaint o k c).k (need - 1) tr hrest
+        refine ⟨m + 1, by simp; omega, by simp [getNames_append, hg, i1], hmem m _ i2, by omega, by omega, ?_, ?_⟩
+        · rw [okUpdateNames_append, List.length_append]
+          rcases hu with h | ⟨h, _⟩ <;> (rw [h]; simp; omega)
+        · intro hlt
+          have := i5 (by simpa using hlt)
+          omega
+      | false =>
+        simp only [Bool.false_eq_true, if_false, Nat.add_zero]
+        obtain ⟨m, hm, i1, i2, i3, i4, i6, i5⟩ := ih (deleteTaint o k c).k need tr hrest
+        refine ⟨m + 1, by simp; omega, by simp [getNames_append, hg, i1], hmem m _ i2, i3, by omega, ?_, ?_⟩
+        · rw [okUpdateNames_append, List.length_append]
+          rcases hu with h | ⟨h, hv'⟩
+          · rw [h]; simpa using i6
+          · rw [hv] at hv'; cases hv'
+        · intro hlt
+          exact i5 (by simpa using hlt)
+
+end Esc
